@@ -1,14 +1,227 @@
-(* C16 — placeholder while the proofs are being developed (replaced below). *)
-From Raptor Require Import Base.Sums Sparse.Defs Amg.Candidates Amg.Prolong.
+(* C16 — The tentative prolongator reproduces the candidates; prolongation smoothing is (I - omega D^-1 A)^k T.
+   Property-level theorems only; each is closed by lemmas from Amg/{Candidates,ParCandidates,Prolong}Proofs.v.
+
+   Model: Amg/Candidates.v (fit_candidates of candidates.cpp and par_candidates.cpp, num_candidates = 1),
+          Amg/Prolong.v (jacobi_prolongation of prolongation.cpp and par_prolongation.cpp, with the library's
+          SpGEMM and subtract).
+   F is any totally ordered field; sqrt is any function that is a non-negative square root ON THE VALUES THE CODE
+   TAKES IT OF (good_sqrt: the squared norms of the restrictions of B) -- so the statements also hold for the executed
+   instance Qc on data whose norms are rational, and for the reals. tol is any threshold with 0 <= tol < 1
+   (the library passes 1e-10).
+   `den M i j` is the sum of the stored values of M at (i,j): the operator M represents. *)
+From Raptor Require Import Base.Sums Sparse.Defs Sparse.ConvertProofs
+  Amg.Candidates Amg.CandidatesProofs Amg.ParCandidatesProofs Amg.Prolong Amg.ProlongProofs.
+From Coq Require Import Field.
 
 Section C16.
 Variable F : Type.
-Variables (zero one : F) (add mul sub : F -> F -> F) (opp : F -> F) (div : F -> F -> F).
-Variable sqrt : F -> F.
+Variables (zero one : F) (add mul sub : F -> F -> F) (opp : F -> F) (div : F -> F -> F) (inv : F -> F).
+Variable Fth : field_theory zero one add mul sub opp div inv (@eq F).
+Variable le : F -> F -> Prop.
+Hypothesis le_refl : forall a, le a a.
+Hypothesis le_antisym : forall a b, le a b -> le b a -> a = b.
+Hypothesis le_trans : forall a b c, le a b -> le b c -> le a c.
+Hypothesis le_total : forall a b, le a b \/ le b a.
+Hypothesis le_add_r : forall a b c, le a b -> le (add a c) (add b c).
+Hypothesis le_mul_nn : forall a b, le zero a -> le zero b -> le zero (mul a b).
 Variable ltb : F -> F -> bool.
+Hypothesis ltb_spec : forall a b, ltb a b = true <-> (le a b /\ a <> b).
+Variable eqb : F -> F -> bool.
+Hypothesis eqb_spec : forall a b, eqb a b = true <-> a = b.
+Variable sqrt : F -> F.
+Variable small : F -> bool.      (* |v| <  zero_tol : dropped by remove_duplicates *)
+Variable small2 : F -> bool.     (* |v| <= zero_tol : not emitted by the SpGEMM *)
+Hypothesis small_zero : small zero = true.
+Hypothesis small2_zero : small2 zero = true.
 
-Theorem C16_fit_dims n_aggs aggs B tol :
-  csr_nr (fst (fit_candidates F zero one add mul div sqrt ltb n_aggs aggs B tol)) = length aggs.
+Notation sumF := (sumf F zero add).
+Notation den := (den_csr F zero add).
+Notation fitc := (fit_candidates F zero one add mul div sqrt ltb).
+Notation Tof na aggs B tol := (fst (fitc na aggs B tol)).
+Notation Rof na aggs B tol := (snd (fitc na aggs B tol)).
+Notation Bat := (bat F zero).
+Notation gsq := (gsumsq F zero add mul).                 (* squared norm of B restricted to an aggregate *)
+Notation pgsq := (pgsumsq F zero add mul).               (* the same with global aggregate ids / isolated vertices *)
+Notation good := (good_sqrt F zero mul le sqrt).
+Notation tolok := (tol_ok F zero one le).
+Notation jacobi := (jacobi_prolongation F zero one add mul opp div ltb eqb small small2).
+Notation par_jacobi := (par_jacobi_prolongation F zero one add mul opp div ltb eqb small small2).
+Notation par_T := (par_fit_T F zero one add mul div sqrt).
+Notation par_fit := (par_fit_candidates F zero one add mul div sqrt).
+Notation dropS := (drop F zero small).
+Notation drop2S := (drop2 F zero small2).
+Notation S_of omega A := (scaled F zero add opp div ltb eqb mul omega A).   (* omega D^-1 A, D = absolute row sums *)
+
+(* ---- tentative prolongator, sequential, all sizes and all aggregations ---- *)
+
+(* shape: T is n x n_aggs, R has one entry per aggregate *)
+Theorem C16_shapes na aggs B tol :
+  csr_nr (Tof na aggs B tol) = length aggs /\ csr_nc (Tof na aggs B tol) = na /\
+  length (csr_rows (Tof na aggs B tol)) = length aggs /\ length (Rof na aggs B tol) = na.
+Proof.
+  split; [reflexivity|split; [reflexivity|split]].
+  - unfold fit_candidates, csc_to_csr, coo_to_csr; simpl. apply bucket_length.
+  - apply (fit_R_length F zero one add mul div sqrt ltb).
+Qed.
+
+(* every entry in closed form: T(i,a) = B_i * scale_a on the rows of aggregate a, nothing elsewhere *)
+Theorem C16_entries na aggs B tol i a :
+  den (Tof na aggs B tol) i a =
+  if (i <? length aggs) && (a <? na) && (nth i aggs 0 =? a)
+  then mul (Bat B i) (col_scale F zero one mul div ltb sqrt tol (gsq aggs B a)) else zero.
+Proof. apply (den_T_closed F zero one add mul sub opp div inv Fth). Qed.
+
+(* columns are supported on their aggregates *)
+Theorem C16_support na aggs B tol i a :
+  den (Tof na aggs B tol) i a <> zero -> i < length aggs /\ nth i aggs 0 = a.
+Proof.
+  intros H. destruct (Nat.lt_ge_cases i (length aggs)) as [Hi|Hi].
+  - split; [exact Hi|]. destruct (Nat.eq_dec (nth i aggs 0) a) as [E|E]; [exact E|].
+    exfalso. apply H. apply (T_support F zero one add mul sub opp div inv Fth). left. exact E.
+  - exfalso. apply H. apply (T_support F zero one add mul sub opp div inv Fth). right. exact Hi.
+Qed.
+
+(* T R = B on every vertex (also when a restriction vanishes: then B is zero there) *)
+Theorem C16_T_R_eq_B na aggs B tol i :
+  aggs_wf na aggs -> tolok tol -> (forall a, a < na -> good (gsq aggs B a)) -> i < length aggs ->
+  sumF (map (fun a => mul (den (Tof na aggs B tol) i a) (nth a (Rof na aggs B tol) zero)) (seq 0 na)) = Bat B i.
+Proof.
+  apply (T_R_eq_B F zero one add mul sub opp div inv Fth le le_refl le_antisym le_trans le_total le_add_r le_mul_nn
+           ltb ltb_spec eqb eqb_spec).
+Qed.
+
+(* orthonormal columns: <T_a,T_b> = 0 for a <> b, <T_a,T_a> = 1 when the restriction of B to aggregate a is non-zero,
+   and 0 on the threshold branch *)
+Theorem C16_orthonormal na aggs B tol a b :
+  aggs_wf na aggs -> tolok tol -> (forall a, a < na -> good (gsq aggs B a)) -> a < na -> b < na ->
+  sumF (map (fun i => mul (den (Tof na aggs B tol) i a) (den (Tof na aggs B tol) i b)) (seq 0 (length aggs)))
+  = if a =? b then (if eqb (gsq aggs B a) zero then zero else one) else zero.
+Proof.
+  apply (T_gram F zero one add mul sub opp div inv Fth le le_add_r le_mul_nn ltb ltb_spec eqb eqb_spec).
+Qed.
+
+(* R holds the column norms; the threshold branch, precisely: restriction zero <-> R_a = 0 and column a of T zero *)
+Theorem C16_R_norms na aggs B tol a :
+  tolok tol -> good (gsq aggs B a) -> a < na ->
+  let r := nth a (Rof na aggs B tol) zero in
+  le zero r /\ mul r r = gsq aggs B a /\
+  (gsq aggs B a = zero -> r = zero) /\ (gsq aggs B a <> zero -> r = sqrt (gsq aggs B a)).
+Proof.
+  apply (R_norm F zero one add mul sub opp div inv Fth le le_refl le_add_r le_mul_nn ltb ltb_spec eqb eqb_spec).
+Qed.
+
+Theorem C16_zero_branch na aggs B tol a :
+  good (gsq aggs B a) -> gsq aggs B a = zero -> a < na ->
+  nth a (Rof na aggs B tol) zero = zero /\ forall i, den (Tof na aggs B tol) i a = zero.
+Proof.
+  intros Hg Hz Ha.
+  destruct (branch_zero F zero one add mul sub opp div inv Fth le ltb ltb_spec eqb eqb_spec sqrt tol _ Hg Hz) as [E1 E2].
+  split.
+  - rewrite (fit_R_nth F zero one add mul sub opp div inv Fth) by exact Ha. exact E2.
+  - intros i. rewrite C16_entries. rewrite E1. destruct (_ && _); [|reflexivity].
+    apply (Rmul_zero_r (F_R Fth)).
+Qed.
+
+(* ---- smoothing, sequential ---- *)
+
+(* one step (the library default k = 1), drops included: P = drop(T - drop2(S T)), S = omega D^-1 A *)
+Theorem C16_smooth_one_step (A T : csr F) omega i j :
+  length (csr_rows A) <= length (csr_rows T) ->
+  den (jacobi A T omega 1) i j =
+  dropS (sub (den T i j)
+             (drop2S (sumF (map (fun l => mul (S_of omega A i l) (den T l j)) (seq 0 (length (csr_rows T))))))).
+Proof.
+  intros H.
+  rewrite (den_jacobi_prolongation F zero one add mul sub opp div inv Fth le le_refl le_antisym le_trans le_total
+             le_add_r ltb ltb_spec eqb eqb_spec small small2 small_zero small2_zero) by exact H.
+  reflexivity.
+Qed.
+
+(* k steps: the same step iterated (k = 2 is the k = 1 statement applied twice) *)
+Theorem C16_smooth_k_steps (A T : csr F) omega k i j :
+  length (csr_rows A) <= length (csr_rows T) ->
+  den (jacobi A T omega k) i j =
+  smooth_den F zero add mul sub small small2 (length (csr_rows T)) (S_of omega A) (den T) k i j.
+Proof.
+  apply (den_jacobi_prolongation F zero one add mul sub opp div inv Fth le le_refl le_antisym le_trans le_total
+           le_add_r ltb ltb_spec eqb eqb_spec small small2 small_zero small2_zero).
+Qed.
+
+(* exact form: when no non-zero intermediate value falls below the drop tolerances, P = (I - omega D^-1 A)^k T *)
+Theorem C16_smooth_exact (A T : csr F) omega k i j :
+  length (csr_rows A) <= length (csr_rows T) ->
+  no_underflow F zero add mul sub small small2 (length (csr_rows T)) (S_of omega A) (den T) k ->
+  i < length (csr_rows T) ->
+  den (jacobi A T omega k) i j =
+  mat_apply_k F zero add mul (length (csr_rows T)) (I_minus F zero one sub (S_of omega A)) (den T) k i j.
+Proof.
+  intros H Hn Hi.
+  rewrite (den_jacobi_prolongation_exact F zero one add mul sub opp div inv Fth le le_refl le_antisym le_trans le_total
+             le_add_r ltb ltb_spec eqb eqb_spec small small2 small_zero small2_zero) by assumption.
+  apply (smooth_exact_matrix F zero one add mul sub opp div inv Fth); [reflexivity|exact Hi].
+Qed.
+
+(* D is the absolute row sum over all stored entries of the row, the diagonal included; rows with D = 0 get 0 *)
+Theorem C16_scaling_is_abs_row_sum (A : csr F) omega i l :
+  S_of omega A i l =
+  mul (den A i l)
+      (let D := sumF (map (fun p => absF F zero opp ltb (snd p)) (nth i (csr_rows A) [])) in
+       if eqb D zero then zero else div omega D).
 Proof. reflexivity. Qed.
+
+(* ---- distributed: functions of the global data and the partition ---- *)
+
+(* gathered T: independent of the partition (any block sizes, empty blocks included); rows of isolated vertices empty *)
+Theorem C16_par_T_entries sizes aggs B i c :
+  fold_right Nat.add 0 sizes = length aggs -> paggs_wf aggs ->
+  den (par_T sizes aggs B) i c =
+  match nth i aggs None with
+  | Some a => if a =? c then mul (Bat B i) (div one (sqrt (pgsq aggs B a))) else zero
+  | None => zero
+  end.
+Proof. apply (den_par_T F zero one add mul sub opp div inv Fth). Qed.
+
+(* R on every rank: the norms of the aggregates whose root it owns, whoever holds the members *)
+Theorem C16_par_R sizes aggs B r ro :
+  fold_right Nat.add 0 sizes = length aggs -> nth_error (par_fit sizes aggs B) r = Some ro ->
+  ro_R F ro = map (fun c => sqrt (pgsq aggs B c)) (ro_on F ro).
+Proof.
+  intros Hs Hr. apply (par_R F zero one add mul sub opp div inv Fth sqrt sizes aggs B r ro Hs Hr).
+Qed.
+
+(* gathered distributed T = sequential T, aggregate a being called roots[a] by the distributed code *)
+Theorem C16_par_T_eq_seq sizes roots seq_aggs B tol i a :
+  NoDup roots -> (forall c, In c roots -> c < length seq_aggs) -> aggs_wf (length roots) seq_aggs ->
+  fold_right Nat.add 0 sizes = length seq_aggs -> tolok tol -> a < length roots ->
+  good (gsq seq_aggs B a) -> gsq seq_aggs B a <> zero ->
+  den (par_T sizes (relabel roots seq_aggs) B) i (nth a roots 0) = den (Tof (length roots) seq_aggs B tol) i a.
+Proof.
+  apply (par_T_eq_seq F zero one add mul sub opp div inv Fth le le_add_r le_mul_nn ltb ltb_spec eqb eqb_spec).
+Qed.
+
+(* smoothing on row blocks: gathered result = sequential result for every partition.
+   _partial: the distributed SpGEMM is modelled as "every rank multiplies its rows with the global rows of P"
+   (what the row exchange of ParCSRMatrix::mult delivers, properties C06/C03) and the column maps of
+   ParCSRMatrix::subtract are not modelled (property C07); the correspondence run ties both to the library. *)
+Theorem C16_par_smooth_eq_seq_partial sizes (A T : csr F) omega k :
+  fold_right Nat.add 0 sizes = length (csr_rows A) -> length (csr_rows A) = length (csr_rows T) ->
+  par_jacobi sizes A T omega k = jacobi A T omega k.
+Proof. apply (par_jacobi_eq F zero one add mul opp div ltb eqb small small2). Qed.
+
 End C16.
-Print Assumptions C16_fit_dims.
+
+Print Assumptions C16_shapes.
+Print Assumptions C16_entries.
+Print Assumptions C16_support.
+Print Assumptions C16_T_R_eq_B.
+Print Assumptions C16_orthonormal.
+Print Assumptions C16_R_norms.
+Print Assumptions C16_zero_branch.
+Print Assumptions C16_smooth_one_step.
+Print Assumptions C16_smooth_k_steps.
+Print Assumptions C16_smooth_exact.
+Print Assumptions C16_scaling_is_abs_row_sum.
+Print Assumptions C16_par_T_entries.
+Print Assumptions C16_par_R.
+Print Assumptions C16_par_T_eq_seq.
+Print Assumptions C16_par_smooth_eq_seq_partial.
